@@ -7,6 +7,11 @@ COQ_MODULE = "CQueue.Model"; RUN_FN = "run"
 THEOREMS = ["C01_refines_spec", "C01_invariant_reachable", "C01_scan_terminates", "C01_fetch_nondecreasing",
             "C01_exactly_once", "C01_cancelled_never_returned", "C01_len_formula", "C01_cancel_after_fetch_noop"]
 QUICK_N = 3000; THOROUGH_N = 300000
+CLAIM = dict(
+    text="Machine-checked refinement (Coq 8.16, axiom-free): for every bucket count n>=1, width t>=1 and every add/cancel/fetch/len history the calendar-queue model returns exactly what a two-list priority-queue specification returns; the scan terminates; on the specification: non-decreasing fetch order, exactly-once accounting as a multiset equation, cancelled-never-returned, len formula, cancel-after-fetch no-op. The model is tied to des-cqueue by differential runs (extracted model vs real CQueue on the same generated histories) on every invocation, plus an independent monitor of the property on the implementation's outputs.",
+    note="Trusted: Coq kernel; extraction (ExtrOcamlBasic only) cross-checked in-Coq by vm_compute on a sample each run; harness/generator quality bounds the tie to the code; linked-list pointer code abstracted to lists (C15); integer overflow of ids/Duration out of scope.",
+    technique="Coq refinement proof (forward simulation, invariant J + relation R) + differential correspondence check",
+    design="6/C01")
 RULE = ("scripts `n t op*` drawn from a structured generator (mostly-valid adds built from tcur+{0,1,t-1,t,k*t,year multiples,"
         " far future, ties}, cancels of live/dead handles, fetches incl. on empty); non-trivial = distinct script (sha1) that"
         " exercises at least two of the targeted mechanisms (tie, year wrap, add at current time, cancel pending, ...)")
